@@ -100,9 +100,9 @@ Print Assumptions C01_validate_basic_iff.
    pairwise disjoint ranges (what validateBasic enforces) this is the declarative reading: the one
    range that contains the number is consulted; if it asks for declarations the declaration with
    that number must exist, not be reserved, and match full name, type and cardinality ---- *)
-Theorem C01_extension_range_lookup_iff : forall miss xrs num fn ty rep,
+Theorem C01_extension_range_lookup_iff : forall miss card xrs num fn ty rep,
   ~ two_share in_ho (map xr_rng xrs) ->
-  go_ext_decl_errs miss xrs num fn ty rep = spec_ext_decl_errs miss xrs num fn ty rep.
+  go_ext_decl_errs miss card xrs num fn ty rep = spec_ext_decl_errs miss card xrs num fn ty rep.
 Proof. exact extension_range_lookup_iff_lemma. Qed.
 Print Assumptions C01_extension_range_lookup_iff.
 
